@@ -507,7 +507,12 @@ func (e *Engine) concretize(st *State, t *Term) *Term {
 			st.flag("unknown", "value enumeration undecided @ "+e.where(st))
 			panic(sigDead{"unknown"})
 		}
-		v := e.ts.BV(m[aux.Name], t.W)
+		mv, have := m[aux.Name]
+		if !have || mv == nil {
+			st.flag("unknown", "solver returned sat without a usable model during value enumeration @ "+e.where(st))
+			panic(sigDead{"unknown"})
+		}
+		v := e.ts.BV(mv, t.W)
 		vals = append(vals, v)
 		excl = e.ts.And(excl, e.ts.Ne(t, v))
 		if len(vals) > e.cfg.MaxValues {
@@ -615,7 +620,7 @@ func (e *Engine) obligation(st *State, tag string, cond *Term, kind string) {
 	case Sat:
 		if !e.violTags[tag] {
 			e.violTags[tag] = true
-			e.rep.Violations = append(e.rep.Violations, Violation{Tag: tag, Kind: kind, Where: e.where(st) + " via " + e.stackTrace(st), Model: m, Tape: e.tapeFromModel(st, m)})
+			e.rep.Violations = append(e.rep.Violations, Violation{Tag: tag, Kind: kind, Where: e.where(st) + " via " + e.stackTrace(st), Model: m, Tape: e.tapeFromModel(st, m), UF: e.ufTable(st, m)})
 		}
 	default:
 		e.rep.Inconclusive = appendUniq(e.rep.Inconclusive, fmt.Sprintf("obligation %q undecided by all solvers @ %s", tag, e.where(st)))
@@ -630,4 +635,42 @@ func (e *Engine) obligation(st *State, tag string, cond *Term, kind string) {
 	}
 	st.known[cond.ID] = e.ts.True
 	e.addPC(st, cond)
+}
+
+// ufTable evaluates every uninterpreted-function application of the path under
+// the model, so that native replay can reproduce the solver's hash values.
+func (e *Engine) ufTable(st *State, m Model) []UFEntry {
+	var out []UFEntry
+	cache := map[int]*big.Int{}
+	hexOf := func(ts []*Term) string {
+		var sb strings.Builder
+		for _, t := range ts {
+			v := e.ts.Eval(t, m, cache)
+			w := t.W
+			if w == 0 {
+				w = 8
+			}
+			n := (w + 7) / 8
+			b := v.Bytes()
+			for i := len(b); i < n; i++ {
+				sb.WriteString("00")
+			}
+			fmt.Fprintf(&sb, "%x", b)
+			if len(b) == 0 && n == 0 {
+				continue
+			}
+		}
+		return sb.String()
+	}
+	names := make([]string, 0, len(st.ufApps))
+	for n := range st.ufApps {
+		names = append(names, n)
+	}
+	sort.Strings(names)
+	for _, n := range names {
+		for _, app := range st.ufApps[n] {
+			out = append(out, UFEntry{Name: n, In: hexOf(app.in), Out: hexOf(app.out)})
+		}
+	}
+	return out
 }
